@@ -55,7 +55,7 @@ def base_edges(cells):
 
 
 def instance_desc(base_pos, cells, k, sim=None, id_offset=0, id_stride=1, bulge=None, shuffle_rng=None,
-                  interior_pts=None, cell_order=None):
+                  interior_pts=None, cell_order=None, vperm_rng=None):
     """Mesh description for harness.build.build_mesh.
 
     base_pos: {base vertex id: (x, y)} model coordinates; cells: list of base-vertex cycles;
@@ -102,6 +102,17 @@ def instance_desc(base_pos, cells, k, sim=None, id_offset=0, id_stride=1, bulge=
             else:
                 out.extend(reversed(interior[(b, a)]))
         cdesc.append([id_offset + id_stride * ci, out])
+    if vperm_rng is not None:
+        # a genuine renumbering: the same set size, ids drawn from offset, offset+stride, ... in random order, so junctions
+        # no longer carry the smallest numbers, numbering order is unrelated to construction order, and 0 can be a junction
+        olds = sorted(model)
+        pool = [id_offset + id_stride * i for i in range(len(olds))]
+        vperm_rng.shuffle(pool)
+        ren = dict(zip(olds, pool))
+        model = {ren[v]: p for v, p in model.items()}
+        newid = {v: ren[n] for v, n in newid.items()}
+        interior = {e: [ren[v] for v in pts] for e, pts in interior.items()}
+        cdesc = [[cid, [ren[v] for v in cyc]] for cid, cyc in cdesc]
     vorder = list(model.keys())
     if shuffle_rng is not None:
         shuffle_rng.shuffle(vorder)
